@@ -122,6 +122,11 @@ class C17(Property):
       knobs["hot_line"] = W.pick("hotline", self.hot_lines)
       knobs["hot_budget"] = W.pick("hotbudget", [1, 2, 5])
       knobs["phase2_seeded"] = 200
+    if knobs["gap_max"] and knobs["line_budget"] and \
+       W.chance("opcodes", 1, 3):
+      # instruction granularity: a switch may land inside a source line
+      knobs["opcodes"] = 1
+      knobs["gap_max"] *= W.pick("opgap", [1, 3, 8])
     wait = bool(W.choose("wait", 2))
     nplayers = W.weighted("nplayers", [(4, 1), (3, 2), (2, 3), (1, 0)])
     script = []
